@@ -150,7 +150,7 @@ def mods_for(r, dlp_dims, p):
         return ("-inf" if neg else "inf") if x is None else lpgen.qs(x)
     for _ in range(r.randint(1, 3)):
         m, n = len(lhs), len(lo)
-        k = r.randrange(11)
+        k = r.randrange(13)
         v = F(r.randint(-6, 6))
         if k == 0 and n > 0:
             j = r.randrange(n)
@@ -207,6 +207,22 @@ def mods_for(r, dlp_dims, p):
             lo.pop()
             up.pop()
             out.append(("rmcol", "rmcol %d" % j))
+        elif k == 11 and m > 2:
+            # several rows at once through the permutation interface; the removed rows are mostly not the last ones, so rows of the tail move
+            # into the holes (SPxLPBase::doRemoveRows compacts: surviving rows keep their relative order)
+            cnt = r.randint(2, max(2, m // 2))
+            pool = list(range(m - 1)) if r.random() < 0.7 else list(range(m))
+            rem = set(r.sample(pool, min(cnt, len(pool))))
+            lhs[:] = [x for i, x in enumerate(lhs) if i not in rem]
+            rhs[:] = [x for i, x in enumerate(rhs) if i not in rem]
+            out.append(("rmrows", "rmrows %s" % "".join("1" if i in rem else "0" for i in range(m))))
+        elif k == 12 and n > 2:
+            cnt = r.randint(2, max(2, n // 2))
+            pool = list(range(n - 1)) if r.random() < 0.7 else list(range(n))
+            rem = set(r.sample(pool, min(cnt, len(pool))))
+            lo[:] = [x for j, x in enumerate(lo) if j not in rem]
+            up[:] = [x for j, x in enumerate(up) if j not in rem]
+            out.append(("rmcols", "rmcols %s" % "".join("1" if j in rem else "0" for j in range(n))))
     return out
 
 
